@@ -26,3 +26,18 @@ Theorem c03_scanner_reads_rendered_pairs :
     scan_attrs fuel prev (to_attrs m) = m.
 Proof. exact scan_rendered. Qed.
 Print Assumptions c03_scanner_reads_rendered_pairs.
+
+(* BEGIN PINS (tools/repin.py) *)
+From WTP Require Import Gen.GenPins.
+Module Pins.
+Import String.
+(* The models of this property were transcribed from: parser.py:parse_attrs.
+   Gen/GenPins.v holds the digests of these functions in the current source (translate/pins.py: syntax tree without
+   docstrings, comments and layout).  A different digest means that the model is no longer known to describe the
+   code; the check then reports the broken tie and looks for a failing input. *)
+Theorem c03_models_describe_the_current_source :
+  pin_parse_attrs = "251c31db2f03ea9f"%string.
+Proof. reflexivity. Qed.
+Print Assumptions c03_models_describe_the_current_source.
+End Pins.
+(* END PINS *)
